@@ -169,7 +169,7 @@ func rgbBounds(by, bcb, bcr float64) [3]float64 {
 
 // ---------- contents ----------
 
-var contents8 = []string{"noise", "checker", "black", "white", "extremes", "hramp", "vramp", "const", "checker2", "smooth", "colchecker"}
+var contents8 = []string{"gnoise", "noise", "checker", "black", "white", "extremes", "hramp", "vramp", "const", "checker2", "smooth", "colchecker"}
 
 // gen8 makes w*h*comps samples of the named content class.
 func gen8(rng *Rand, class string, w, h, comps int) []byte {
@@ -186,6 +186,15 @@ func gen8(rng *Rand, class string, w, h, comps int) []byte {
 				switch class {
 				case "noise":
 					v = rng.Intn(256)
+				case "gnoise": // graded noise: amplitude grows from 0 (top left) to full (bottom right)
+					a := 1 + 255*(x+y)/maxi(w+h-2, 1)
+					v = 128 - a/2 + rng.Intn(a)
+					if v < 0 {
+						v = 0
+					}
+					if v > 255 {
+						v = 255
+					}
 				case "checker": // Nyquist checkerboard, all channels in phase
 					v = 255 * ((x + y + ph) & 1)
 				case "colchecker": // Nyquist checkerboard, channels in opposite phase
@@ -214,7 +223,7 @@ func gen8(rng *Rand, class string, w, h, comps int) []byte {
 	return p
 }
 
-var contents12 = []string{"noise", "checker", "black", "white", "extremes", "hramp", "vramp", "const", "smooth", "noise8"}
+var contents12 = []string{"gnoise", "noise", "checker", "black", "white", "extremes", "hramp", "vramp", "const", "smooth", "noise8"}
 
 // gen12 makes w*h 12-bit samples (little endian, 2 bytes each).
 func gen12(rng *Rand, class string, w, h int) []byte {
@@ -229,6 +238,15 @@ func gen12(rng *Rand, class string, w, h int) []byte {
 				v = rng.Intn(4096)
 			case "noise8":
 				v = 2048 + rng.Intn(256) - 128
+			case "gnoise":
+				a := 1 + 4095*(x+y)/maxi(w+h-2, 1)
+				v = 2048 - a/2 + rng.Intn(a)
+				if v < 0 {
+					v = 0
+				}
+				if v > 4095 {
+					v = 4095
+				}
 			case "checker":
 				v = 4095 * ((x + y + ph) & 1)
 			case "black":
